@@ -82,8 +82,11 @@ def mutants_of(path, rng, limit):
     return src, cands[:limit]
 
 
-def sh(cmd, cwd, timeout=1800):
-    p = subprocess.run(cmd, cwd=cwd, stdout=subprocess.PIPE, stderr=subprocess.STDOUT, text=True, timeout=timeout)
+def sh(cmd, cwd, timeout=2400):
+    try:
+        p = subprocess.run(cmd, cwd=cwd, stdout=subprocess.PIPE, stderr=subprocess.STDOUT, text=True, timeout=timeout, stdin=subprocess.DEVNULL)
+    except subprocess.TimeoutExpired:
+        return 124, "TIMEOUT"
     return p.returncode, p.stdout
 
 
